@@ -128,6 +128,10 @@ def coverage(chk, units):
                                                                 purevirtual=False, userdecl=False))
             if not d.get("implicit"):
                 p["userdecl"] = True
+            if d.get("lambdaparent") is not None:
+                par = u.decls.get(d["lambdaparent"])
+                if par is not None and par.get("pfile"):
+                    p["parent"] = (par["pfile"], par["pline"])
             if not d["dependent"] and d["hasbody"]:
                 p["inst"].append(d["qn"])
                 if "vt::Arch" in d["qn"] or "vt::Arch" in d.get("recqn", ""):
@@ -160,6 +164,13 @@ def coverage(chk, units):
                    key=key)
         elif p["purevirtual"] and not p["inst"]:
             continue
+        elif p.get("parent") in pats and pats[p["parent"]]["arch"]:
+            # a lambda inside a function that IS instantiated with the archetype, but only in its instantiations
+            # for other scalar types: it sits in a compile-time branch on a property of T. Not a hole of the witness
+            # (the archetype cannot reach it by construction); the branch is decided by the value rules (R-REG is
+            # evaluated on the double AND on the archetype instantiation).
+            chk.note("scalar_type_dispatched_patterns", sorted(set(chk.notes.get(
+                "scalar_type_dispatched_patterns", []) + ["%s %s" % (where, p["pqn"])])))
         else:
             holes.append("%s %s" % (where, p["pqn"]))
     if holes:
